@@ -30,6 +30,8 @@ FAMILIES = {
     # EIP-7702 blocks: authorisations move a sender's nonce between its own transactions, senders with
     # stale / future nonces (in-order: skipped) next to valid ones
     "C03": [("code", 2500, 40000)],
+    # the fee recipient is one of the destroyed / re-created accounts in a quarter of these blocks
+    "C07": [("destroy", 1500, 25000)],
 }
 
 
